@@ -133,3 +133,59 @@ theorem parseDate_exact (y m d : Int) :
     simp [n1, n2]
 
 end Starcal
+
+namespace Starcal
+
+theorem fmtDate_no_space (y m d : Int) : ∀ x ∈ fmtDate y m d, x ≠ ' ' := by
+  intro x hx
+  unfold fmtDate at hx
+  have hf : ∀ i, ∀ c ∈ showInt i, c ≠ ' ' := fun i => showInt_free i ' ' (by decide) (by decide)
+  simp only [List.mem_append, List.mem_cons] at hx
+  rcases hx with h | rfl | h | rfl | h
+  · exact hf _ x h
+  · decide
+  · exact hf _ x h
+  · decide
+  · exact hf _ x h
+
+/-- "y/m/d h:m:s" written with any integer fields -/
+theorem parseDateHMS_exact (y m d h mi s : Int) :
+    ∃ dv hv, parseDateHMS (fmtDate y m d ++ (' ' :: fmtHMS h mi s)) = some (dv, hv) ∧
+      ((dv.isValid && hv.isValid) = true ↔
+        (1 ≤ m ∧ m ≤ 12 ∧ 1 ≤ d ∧ d ≤ 39 ∧ 0 ≤ h ∧ h < 24 ∧ 0 ≤ mi ∧ mi < 60 ∧ 0 ≤ s ∧ s < 60)) ∧
+      ((dv.isValid && hv.isValid) = true → dv = ⟨y, m, d⟩ ∧ hv = ⟨h, mi, s⟩) := by
+  have hsplit : splitOn ' ' (fmtDate y m d ++ (' ' :: fmtHMS h mi s)) = [fmtDate y m d, fmtHMS h mi s] := by
+    rw [splitOn_append ' ' _ _ (fmtDate_no_space y m d), splitOn_free ' ' _ (fmtHMS_no_space h mi s)]
+  obtain ⟨dv, hd1, hd2, hd3⟩ := parseDate_exact y m d
+  obtain ⟨hv, hh1, hh2, hh3⟩ := parseHMS_exact h mi s
+  refine ⟨dv, hv, ?_, ?_, ?_⟩
+  · unfold parseDateHMS; rw [hsplit]; simp [hd1, hh1]
+  · rw [Bool.and_eq_true, hd2, hh2]
+    constructor
+    · rintro ⟨⟨a1, a2, a3, a4⟩, b1, b2, b3, b4, b5, b6⟩; exact ⟨a1, a2, a3, a4, b1, b2, b3, b4, b5, b6⟩
+    · rintro ⟨a1, a2, a3, a4, b1, b2, b3, b4, b5, b6⟩; exact ⟨⟨a1, a2, a3, a4⟩, b1, b2, b3, b4, b5, b6⟩
+  · rw [Bool.and_eq_true]
+    rintro ⟨a, b⟩
+    exact ⟨hd3 a, hh3 b⟩
+
+/-- "h:m:s h:m:s" written with any integer fields -/
+theorem parseHMSRange_exact (h1 m1 s1 h2 m2 s2 : Int) :
+    ∃ a b, parseHMSRange (fmtHMS h1 m1 s1 ++ (' ' :: fmtHMS h2 m2 s2)) = some (a, b) ∧
+      ((a.isValid && b.isValid) = true ↔
+        (0 ≤ h1 ∧ h1 < 24 ∧ 0 ≤ m1 ∧ m1 < 60 ∧ 0 ≤ s1 ∧ s1 < 60 ∧ 0 ≤ h2 ∧ h2 < 24 ∧ 0 ≤ m2 ∧ m2 < 60 ∧ 0 ≤ s2 ∧ s2 < 60)) ∧
+      ((a.isValid && b.isValid) = true → a = ⟨h1, m1, s1⟩ ∧ b = ⟨h2, m2, s2⟩) := by
+  have hsplit : splitOn ' ' (fmtHMS h1 m1 s1 ++ (' ' :: fmtHMS h2 m2 s2)) = [fmtHMS h1 m1 s1, fmtHMS h2 m2 s2] := by
+    rw [splitOn_append ' ' _ _ (fmtHMS_no_space h1 m1 s1), splitOn_free ' ' _ (fmtHMS_no_space h2 m2 s2)]
+  obtain ⟨a, ha1, ha2, ha3⟩ := parseHMS_exact h1 m1 s1
+  obtain ⟨b, hb1, hb2, hb3⟩ := parseHMS_exact h2 m2 s2
+  refine ⟨a, b, ?_, ?_, ?_⟩
+  · unfold parseHMSRange; rw [hsplit]; simp [ha1, hb1]
+  · rw [Bool.and_eq_true, ha2, hb2]
+    constructor
+    · rintro ⟨⟨a1, a2, a3, a4, a5, a6⟩, b1, b2, b3, b4, b5, b6⟩; exact ⟨a1, a2, a3, a4, a5, a6, b1, b2, b3, b4, b5, b6⟩
+    · rintro ⟨a1, a2, a3, a4, a5, a6, b1, b2, b3, b4, b5, b6⟩; exact ⟨⟨a1, a2, a3, a4, a5, a6⟩, b1, b2, b3, b4, b5, b6⟩
+  · rw [Bool.and_eq_true]
+    rintro ⟨x, y⟩
+    exact ⟨ha3 x, hb3 y⟩
+
+end Starcal
